@@ -2,7 +2,7 @@ from lanes import *  # noqa
 
 PROP = {
         "level": "fault_enumeration",
-        "level_text": "Fault enumeration over the real emit_file worker (Worker::on_batch through the cfg(emit_rs_emit_verif) hook) running on a fault-injecting in-memory filesystem: for every generated batch history (400 quick / 8 000 thorough; 1-12 batches of 1-8 self-describing records, clock advances, clean restarts with and without reuse_files, two separators) a fault-free run counts the filesystem operations and then EVERY operation index is replayed under EVERY fault kind (error; on writes three short-write-then-error splits and a benign short write; crash x {lose all unsynced, keep all, seeded prefix} x {restart with reuse, without}), plus seeded sequences of 2-3 faults. The durability / record-integrity oracle runs after every on_batch attempt, restart and crash. An end-to-end lane drives the whole pipeline (emit -> channel -> worker) over the same filesystem, and a strace lane checks the real StdFilesystem syscall pattern. Held-on-what-was-observed: histories are sampled, the fault positions inside each history are exhausted.",
+        "level_text": "Fault enumeration over the real emit_file worker (Worker::on_batch through the cfg(emit_rs_emit_verif) hook) running on a fault-injecting in-memory filesystem: for every generated batch history (400 quick / 32 000 thorough; 1-12 batches of 1-8 self-describing records, clock advances, clean restarts with and without reuse_files, two separators) a fault-free run counts the filesystem operations and then EVERY operation index is replayed under EVERY fault kind (error; on writes three short-write-then-error splits and a benign short write; crash x {lose all unsynced, keep all, seeded prefix} x {restart with reuse, without}), plus seeded sequences of 2-3 faults. The durability / record-integrity oracle runs after every on_batch attempt, restart and crash. An end-to-end lane drives the whole pipeline (emit -> channel -> worker) over the same filesystem, and a strace lane checks the real StdFilesystem syscall pattern. Held-on-what-was-observed: histories are sampled, the fault positions inside each history are exhausted.",
         "level_note": "Trusts the filesystem model in harness/monx/src/shared/fakefs.rs (append-only files with synced / unsynced bytes, directory entries durable only after sync_parent, crash keeps synced bytes plus a prefix of the unsynced bytes) and the harness's batcher role (re-submit exactly the returned remainder, at most 6 times). Real power loss on real media is out of reach; the strace lane only checks the syscall pattern (O_APPEND|O_CREAT|O_EXCL, fsync(file) before flush returns, fsync(dir) after create).",
         "technique": "runtime monitoring: record/durability oracle over a fault-injecting filesystem, every op index x fault kind per history, seeded multi-fault sequences, end-to-end pipeline lane, strace lane on the real filesystem",
         "assumptions": [
@@ -13,7 +13,7 @@ PROP = {
             "end-to-end lane: a third of the scenarios use the default JSON writer, the rest the harness's own writer; in three quarters of the scenarios every 2nd/3rd/7th event of every emitting thread fails to format part-way (bytes already in the FileBuf, or a Display/Debug value that writes text and then returns fmt::Error) and is followed by ordinary events of the same thread; every line must be byte for byte the record of one successfully formatted event and event_format_failed must equal the number of scripted failures",
         ],
         "lanes": [
-            native("c10", pkg="monx"),
+            native("c10", pkg="monx", scale={"quick": 100, "thorough": 400}),
             native("c07x", pkg="monx", name="files-e2e", args={"prop": "C10"}),
             {"name": "strace", "kind": "script", "script": "c10-strace", "tiers": QT, "args": {"prop": "C10"}},
         ],
